@@ -24,6 +24,12 @@ Fails(e) ==
      \* configured with is a configuration fact, not part of the property - a character from there that the lexical model writes
      \* as a symbol may as well be a letter (and then merges with its neighbours): such sequences are not judged
      ELSE IF e.kind \in {"expression", "expression-custom"} /\ \E i \in 1 .. n : lx[i][1] = "symbol" /\ lx[i][2][1] >= 256 THEN ""
+     \* likewise configuration facts: a '+' directly before a number in the generic tokenizer ("a sign is part of the number
+     \* generically"), two slashes in a row in expressions (a comment syntax of its own), and a Unicode space character written as a
+     \* symbol (which characters form "whitespace runs")
+     ELSE IF e.kind = "generic" /\ \E i \in 1 .. n - 1 : lx[i][2] = <<43>> /\ lx[i + 1][1] \in {"integer", "float"} THEN ""
+     ELSE IF e.kind \in {"expression", "expression-custom"} /\ \E i \in 1 .. n - 1 : lx[i][2] = <<47>> /\ lx[i + 1][2][1] = 47 THEN ""
+     ELSE IF \E i \in 1 .. n : lx[i][1] = "symbol" /\ lx[i][2][1] \in ({133, 160, 5760, 8232, 8233, 8239, 8287, 12288} \cup (8192 .. 8202)) THEN ""
      ELSE LET want == [i \in 1 .. n + 1 |-> IF i <= n THEN <<TypeOf(e.kind, lx[i][1]), lx[i][2]>> ELSE <<1, <<>>>>]
               got  == [i \in 1 .. Len(e.toks) |-> <<e.toks[i][1], e.toks[i][2]>>]
           IN IF got = want THEN ""
